@@ -145,6 +145,10 @@ namespace
         std::vector<int> v; size_t n = 0;
         void build(size_t size, Rng&) { n = size; v.resize(n * STEP); for (size_t i = 0; i < v.size(); ++i) v[i] = static_cast<int>(i * 7 + 3); }
         It at(size_t p) { return xtl::make_stepping_iterator(v.begin() + static_cast<std::ptrdiff_t>(p * STEP), STEP); }
+        // an iterator of the same type that walks another sequence with another step: a variable that held it and is then
+        // assigned one of this kind's iterators must behave like the assigned one in every respect
+        std::vector<int> other = std::vector<int>(64, -1);
+        It foreign() { return xtl::make_stepping_iterator(other.begin() + 5, STEP + 3); }
         It begin() { return at(0); } It end() { return at(n); }
         long value(const It& it) { return *it; }
         long index(const It& it, std::ptrdiff_t d) { return it[d]; }
@@ -386,6 +390,9 @@ namespace
         }
         void expect_distance(const It&, size_t, const char*, std::false_type) {}
 
+        template <class KK> static auto foreign_of(KK& kk, int) -> decltype(kk.foreign()) { SIM_PROBE("assigned_over_an_iterator_with_another_step"); return kk.foreign(); }
+        template <class KK> static It foreign_of(KK& kk, long) { return kk.at(0); }
+
         void check_walkers()
         {
             expect_at(it[0], pos[0], "walker 0");
@@ -421,12 +428,12 @@ namespace
             case OP_plus_assign: { It& r = (a += d); if (&r != &a) viol("ret", "+= does not return *this"); pos[w] = q; ++run.changing; } break;
             case OP_minus_assign: { It& r = (a -= (-d)); if (&r != &a) viol("ret", "-= does not return *this"); pos[w] = q; ++run.changing; } break;
             case OP_plus:
-                { It r = a + d; expect_at(r, q, "it + n"); expect_at(a, p, "it after it + n");
+                { It r = foreign_of(k, 0); r = a + d; expect_at(r, q, "it + n"); expect_at(a, p, "it after it + n");
                   if (!(fwd_only && d < 0)) { if ((r - a) != d) viol("diff", "(it + n) - it == " + std::to_string(static_cast<long>(r - a)) + ", n == " + std::to_string(static_cast<long>(d))); }
                   else if ((a - r) != -d) viol("diff", "it - (it + n) == " + std::to_string(static_cast<long>(a - r)) + ", n == " + std::to_string(static_cast<long>(d)));
                   It back = r - d; expect_at(back, p, "(it + n) - n"); }
                 break;
-            case OP_n_plus: { It r = d + a; expect_at(r, q, "n + it"); if (!(r == a + d)) viol("position", "n + it != it + n"); } break;
+            case OP_n_plus: { It r = foreign_of(k, 0); r = d + a; expect_at(r, q, "n + it"); if (!(r == a + d)) viol("position", "n + it != it + n"); } break;
             case OP_minus: { It r = a - (-d); expect_at(r, q, "it - n"); expect_at(a, p, "it after it - n"); } break;
             case OP_index:
                 if (q < k.n)
@@ -533,6 +540,7 @@ namespace
                     k.build(n, env);
                     pos[0] = pick_pos(st.b, is_huge<K>()); pos[1] = pick_pos(st.c, is_huge<K>());
                     if (is_huge<K>::value) SIM_PROBE("positions_beyond_2^31");
+                    it[0] = foreign_of(k, 0);
                     it[0] = k.at(pos[0]); it[1] = k.at(pos[1]);
                     ++run.changing;
                     SIM_PROBE("container_resized_walkers_reseated");
